@@ -59,26 +59,26 @@ type Profile struct {
 	// LateReply: the reply comes after the transports' 6 s I/O limit (it is
 	// then a reply nobody waits for any more, on a connection that must not
 	// be used again).
-	LateReply float64
-	Shapes       []string
-	BigAnswers   float64
-	DelayUs      [2]int64
-	RepeatToken  float64 // probability that an op reuses an earlier token (cache hits)
-	Seg          bool
-	Yields       bool
-	GC           bool
-	ECS          float64
-	IpMarker     float64
-	TTLs         string // normal | edge
-	Limiter      bool
-	LingerUs     int64
-	Unix         float64
-	Overload     bool
-	UpFaultNet   bool // loss/dup on upstream datagram links
-	OptInReply   float64
-	Compress     bool
-	Rcodes       bool
-	Classes      bool
+	LateReply   float64
+	Shapes      []string
+	BigAnswers  float64
+	DelayUs     [2]int64
+	RepeatToken float64 // probability that an op reuses an earlier token (cache hits)
+	Seg         bool
+	Yields      bool
+	GC          bool
+	ECS         float64
+	IpMarker    float64
+	TTLs        string // normal | edge
+	Limiter     bool
+	LingerUs    int64
+	Unix        float64
+	Overload    bool
+	UpFaultNet  bool // loss/dup on upstream datagram links
+	OptInReply  float64
+	Compress    bool
+	Rcodes      bool
+	Classes     bool
 }
 
 var allListeners = []string{"udp", "udp", "tcp", "tcp", "gnet", "gnet", "tls", "tls", "http", "fasthttp", "https", "https", "quic"}
@@ -267,6 +267,16 @@ func generate(seed uint64, focus, arm string) *plan.Plan {
 		}
 	}
 	specialize(r, p, focus, arm)
+	if arm == "cli" {
+		// the real command line on a generated file; one run in seven is the
+		// control (no unknown key: the file must be accepted)
+		p.Router.StartFault = nil
+		if !r.p(0.15) {
+			keys := []string{"no_such_key", "listn", "forwrd", "tag2", "Servers", "cache_size", "upstream", "rule", "addr ", "mem-size", "x"}
+			p.Router.StartFault = &plan.StartFault{Kind: "unknown_key", Pos: r.intn(100000), Key: keys[r.intn(len(keys))]}
+		}
+		p.Router.Ops, p.Router.Conns = nil, nil
+	}
 	if arm == "redis" {
 		// second-level cache on the simulated redis server; a small memory
 		// cache in half of the runs so that entries come back through redis
